@@ -61,8 +61,9 @@ Print Assumptions C03_reject_outside_stays_inside.
 Theorem C03_out_of_cube_rule_is_rejection : Gen.Kernel.out_of_cube_proposals_are_rejected = true.
 Proof. reflexivity. Qed.
 
-(** periodic / reflective coordinates. The symmetric (RWM) step keeps a symmetric density after wrapping or folding
-    (sum over the pre-images, any symmetric truncation), so the plain Metropolis ratio stays exact there; the tpCN runner
+(** periodic / reflective coordinates. A symmetric one-coordinate (RWM) step keeps a symmetric density after wrapping or folding
+    (sum over the pre-images, any symmetric truncation); with several coordinates only wrapping survives a correlated step law
+    (below), so the RWM runner wraps periodic coordinates and rejects at reflective walls; the tpCN runner
     does not wrap or fold at all (Gen.Kernel.tpcn_rejects_on_every_coordinate): it rejects out-of-cube proposals on every
     coordinate, which is the case of C03_reject_outside_detailed_balance. Wrapping a proposal that is reversible w.r.t. a
     non-periodic reference is refuted by a three-residue example. *)
@@ -74,8 +75,22 @@ Theorem C03_rwm_fold_symmetric : forall (phi : R -> R), (forall t, phi (- t) = p
   forall K u u', q_fold phi K u u' = q_fold phi K u' u.
 Proof. exact fold_symmetric. Qed.
 Print Assumptions C03_rwm_fold_symmetric.
+(** several coordinates, a step law even only under the JOINT sign change (any correlated Gaussian): wrapping one coordinate
+    keeps the step symmetric (the rule the RWM runner keeps for periodic coordinates) ... *)
+Theorem C03_rwm_wrap_symmetric_correlated : forall (phi2 : R -> R -> R), (forall a b, phi2 (- a) (- b) = phi2 a b) ->
+  forall K u1 u2 v1 v2, q_wrap2 phi2 K u1 u2 v1 v2 = q_wrap2 phi2 K v1 v2 u1 u2.
+Proof. exact wrap2_symmetric. Qed.
+Print Assumptions C03_rwm_wrap_symmetric_correlated.
+(** ... folding it does not (refuted, for every truncation of the image sum): the pinned tree folded RWM proposals at
+    reflective walls, which is in detailed balance only for scale matrices that do not couple the folded coordinate to the
+    others; repaired in /repo (the RWM runner now rejects at reflective walls: C03_reject_outside_detailed_balance). *)
+Example C03_rwm_fold_correlated_refuted :
+  (forall a b, phi_corr (- a) (- b) = phi_corr a b)
+  /\ forall K, q_fold2 phi_corr K (1/5) 0 (1/10) (1/2) = 0 /\ q_fold2 phi_corr K (1/10) (1/2) (1/5) 0 = 1.
+Proof. split; [exact phi_corr_even|exact fold2_not_symmetric]. Qed.
+Print Assumptions C03_rwm_fold_correlated_refuted.
 Theorem C03_boundary_rules_of_the_code :
-  Gen.Kernel.tpcn_rejects_on_every_coordinate = true /\ Gen.Kernel.rwm_wraps_and_folds_designated_coordinates = true.
+  Gen.Kernel.tpcn_rejects_on_every_coordinate = true /\ Gen.Kernel.rwm_wraps_periodic_and_rejects_at_reflective_walls = true.
 Proof. split; reflexivity. Qed.
 Example C03_wrapped_tpcn_refuted :
   (forall x y, m_ex x * q_ex x y = m_ex y * q_ex y x)
